@@ -347,6 +347,35 @@ def f20():
     return ok, f"alpha {before[0]} -> {m.overprod[0]}, documented rule gives {want[0]}"
 
 
+@trigger("F17", ["C20", "C09"])
+def f17():
+    """linear recovery with a step of two temporal units jumping over recovery_tau: damage must not go negative"""
+    tb = base_table()
+    cfg = base_cfg(dt=2)
+    ev = rec_event(tb, cfg, frac=0.1, occ=2, dur=1, tau=2, curve="linear")
+    sim = run_loop(mk_sc(tb, cfg, [ev], T=14))
+    rec = sim.productive_capital_to_recover.to_numpy()[::2]
+    ok = bool(np.nanmin(rec) >= 0)
+    return ok, f"minimum recorded destroyed capital {np.nanmin(rec)}"
+
+
+@trigger("F18", ["C18"])
+def f18():
+    """alt vs noalt orders when every supplier of an input has zero capacity (uniform relative capacity 0)"""
+    tb = base_table()
+    ev = arb_event(inds=(("rA", "build"), ("rB", "build")), loss=1.0, occ=2, dur=3, tau=2)
+    outs = {}
+    for ot in ("alt", "noalt"):
+        sim = scen.build_sim(mk_sc(tb, base_cfg(order_type=ot), [ev], T=8))
+        for _ in range(3):
+            sim.next_step()
+        outs[ot] = sim.model.intermediate_demand.copy()
+    rows = [1, 4]          # the "build" industries of the two regions
+    a, b = outs["alt"][rows, :].sum(), outs["noalt"][rows, :].sum()
+    ok = bool(abs(a - b) <= 1e-9 * max(abs(a), abs(b)))
+    return ok, f"orders addressed to the zero-capacity sector: alt {a}, noalt {b}"
+
+
 def run_all(props=None, only=None):
     res = {}
     for fid, t in TRIGGERS.items():
